@@ -22,9 +22,9 @@ def run(chk):
     chk.assume_note('grandfathered rules (mainnet/testnet below height 500000 for registration, 900000 for the lock) are '
                     'carved out exactly as the property states them')
     chk.assume_note('voting power sums (votes / total_votes) are discharged in C14; the stake commitment root in C07')
-    register_kernel(chk, it)
-    lock_kernel(chk, it)
-    unlock_kernel(chk, it)
+    chk.guard(register_kernel, chk, it)
+    chk.guard(lock_kernel, chk, it)
+    chk.guard(unlock_kernel, chk, it)
 
 
 def old_rules(netd, h, limit):
